@@ -120,6 +120,29 @@ func vPremature(p *vParser, buf []byte, start int) {
 	vReach("end")
 }
 
+// vPrematureAll (C03): the same for every prefix buf[:j], from <= j < len(buf),
+// of a (template) buffer whose text starts at offset start.
+func vPrematureAll(p *vParser, buf []byte, start int, from int) {
+	for j := from; j < len(buf); j++ {
+		p.reset(0)
+		p.reset(1)
+		o1, e1 := p.parse(0, buf[:j], start)
+		if e1 == p.more {
+			continue
+		}
+		o2, e2 := p.parse(1, buf[:j+1], start)
+		vObs("j", j)
+		vObs("o1", o1)
+		vObs("e1", int(e1))
+		vObs("o2", o2)
+		vObs("e2", int(e2))
+		vAssert("stable-verdict", o1 == o2 && e1 == e2)
+		vAssert("stable-values", p.sameObs())
+		vReach("definitive")
+	}
+	vReach("end")
+}
+
 // vOffset (C11): the same text parsed at offset k of a longer buffer (object
 // 1) and at offset 0 (object 0): same verdict, offset and fields shifted by k.
 func vOffset(p *vParser, text []byte, k int) {
